@@ -15,6 +15,7 @@ package pilosa
 
 import (
 	"context"
+	"encoding/json"
 	"fmt"
 	"os"
 	"path/filepath"
@@ -28,6 +29,7 @@ import (
 
 	"github.com/pilosa/pilosa/internal/vx"
 	"github.com/pilosa/pilosa/pql"
+	"github.com/pkg/errors"
 )
 
 const c17Index = "i"
@@ -100,10 +102,15 @@ func c17APIQuery(ctx context.Context, api *API, req *QueryRequest) (QueryRespons
 	}
 	var q *pql.Query
 	if v, ok := c17ParseCache.Load(req.Query); ok {
+		if e, isErr := v.(error); isErr {
+			return QueryResponse{}, e
+		}
 		q = v.(*pql.Query)
 	} else {
 		pq, err := pql.ParseString(req.Query)
 		if err != nil {
+			err = errors.Wrap(err, "parsing") // as API.Query wraps it
+			c17ParseCache.Store(req.Query, err)
 			return QueryResponse{}, err
 		}
 		c17ParseCache.Store(req.Query, pq)
@@ -258,6 +265,7 @@ func c17Profile(p byte, s uint64, d *c17Data) {
 		add("f", 1, c0, "")
 		add("f", 1, c1, "")
 		add("f", 2, c2, "")
+		add("g", 1, c0, "")
 		add("g", 1, c1, "")
 		add("g", 2, c0, "")
 		d.vals[c0], d.vals[c2] = 1, 2
@@ -265,13 +273,16 @@ func c17Profile(p byte, s uint64, d *c17Data) {
 	case 'C':
 		add("f", 2, c0, "")
 		add("f", 3, c0, "")
+		add("g", 1, c0, "")
 		add("g", 2, c0, "")
-		d.vals[c0], d.vals[c1] = -1, 2
+		d.vals[c0], d.vals[c1], d.vals[c2] = -1, 2, 2
 		add("t", 2, c0, "2018-01-01T00:00")
 	case 'D':
+		add("f", 3, c1, "")
 		add("f", 3, c2, "")
+		add("g", 1, c1, "")
 		add("g", 1, c2, "")
-		d.vals[c2] = -1
+		d.vals[c1], d.vals[c2] = -1, -1
 	}
 }
 
@@ -597,8 +608,8 @@ func c17Queries(d *c17Data) []c17Query {
 		{pql: "Max(Row(f=1), field=v)", sig: "Max", topN: -1, model: c17VCModel("Max", "f", 1)},
 		{pql: "MinRow(field=f)", sig: "MinRow", topN: -1},
 		{pql: "MaxRow(field=f)", sig: "MaxRow", topN: -1},
-		{pql: "MinRow(field=g)", sig: "MinRow", topN: -1},
-		{pql: "MaxRow(field=g)", sig: "MaxRow", topN: -1},
+		{pql: "MinRow(Row(g=1), field=f)", sig: "MinRow(filter)", topN: -1},
+		{pql: "MaxRow(Row(g=1), field=f)", sig: "MaxRow(filter)", topN: -1},
 		{pql: "TopN(f)", sig: "TopN", topN: 0},
 		{pql: "TopN(f, n=1)", sig: "TopN(n)", topN: 1, safe: c17TopNSafe(1)},
 		{pql: "TopN(f, n=2)", sig: "TopN(n)", topN: 2, safe: c17TopNSafe(2)},
@@ -680,6 +691,16 @@ func c17Canon(v interface{}, topN int) string {
 
 // c17Component names what differs between two canonical results (used in finding keys).
 func c17Component(a, b string) string {
+	if strings.HasPrefix(a, "ERR") != strings.HasPrefix(b, "ERR") {
+		e := a
+		if strings.HasPrefix(b, "ERR") {
+			e = b
+		}
+		if strings.Contains(e, "parse error") {
+			return "error-on-some(forwarded call text rejected by the remote parser)"
+		}
+		return "error-on-some"
+	}
 	if strings.HasPrefix(a, "val=") && strings.HasPrefix(b, "val=") {
 		var av, ac, bv, bc int64
 		fmt.Sscanf(a, "val=%d count=%d", &av, &ac)
@@ -738,8 +759,21 @@ func c17Shapes() []c17Shape {
 	return out
 }
 
-// c17RunDataset executes the whole battery for one dataset; returns observations per query.
-func c17RunDataset(t *testing.T, c *vx.Check, d *c17Data, shapes []c17Shape) {
+// c17Rec is what a worker reports for one (dataset, shape, query, coordinator): every DISTINCT result seen over
+// all arrival plans, each with its first witness.
+type c17Rec struct {
+	D, S, Q, C int
+	G          string
+	R          []c17RecRes
+}
+
+type c17RecRes struct {
+	Res, Plan, Order string
+	N                int
+}
+
+// c17RunUnit executes the whole battery for one (dataset, cluster shape) inside one synctest bubble.
+func c17RunUnit(t *testing.T, c *vx.Check, di, si int, d *c17Data, sh c17Shape, emit func([]byte)) {
 	queries := c17Queries(d)
 	if only := os.Getenv("C17_QUERIES"); only != "" {
 		// debugging aid: restrict the battery to the ';'-separated query texts
@@ -753,76 +787,84 @@ func c17RunDataset(t *testing.T, c *vx.Check, d *c17Data, shapes []c17Shape) {
 		}
 		queries = qs
 	}
-	obs := make([][]c17Obs, len(queries))
 	base := vx.Scratch()
-	for si, sh := range shapes {
-		if c.Expired() {
-			return
+	defer os.RemoveAll(base)
+	synctest.Test(t, func(t *testing.T) {
+		var hasher Hasher = &jmphasher{}
+		if sh.hasher == "mod" {
+			hasher = c17ModHasher{}
 		}
-		sh := sh
-		synctest.Test(t, func(t *testing.T) {
-			var hasher Hasher = &jmphasher{}
-			if sh.hasher == "mod" {
-				hasher = c17ModHasher{}
-			}
-			cl := c17NewCluster(filepath.Join(base, fmt.Sprint(si)), sh.n, sh.replicas, hasher)
-			defer cl.Close()
-			cl.load(d)
-			// shard -> primary owner; local shard counts per node
-			k := make([]int, sh.n)
-			var gdesc []string
-			for _, s := range d.shards {
-				own := cl.nodes[0].cluster.shardNodes(c17Index, s)[0]
-				for _, nd := range cl.nodes {
-					if nd.node.ID == own.ID {
-						k[nd.idx]++
-						gdesc = append(gdesc, fmt.Sprintf("%d->n%d", s, nd.idx))
-					}
+		cl := c17NewCluster(base, sh.n, sh.replicas, hasher)
+		defer cl.Close()
+		cl.load(d)
+		// shard -> primary owner; local shard counts per node
+		k := make([]int, sh.n)
+		var gdesc []string
+		for _, s := range d.shards {
+			own := cl.nodes[0].cluster.shardNodes(c17Index, s)[0]
+			for _, nd := range cl.nodes {
+				if nd.node.ID == own.ID {
+					k[nd.idx]++
+					gdesc = append(gdesc, fmt.Sprintf("%d->n%d", s, nd.idx))
 				}
 			}
-			grouping := strings.Join(gdesc, ",")
-			groups := 0
-			nplans := 1
-			for _, x := range k {
-				if x > 0 {
-					groups++
-				}
-				nplans *= c17Fact[x]
+		}
+		grouping := strings.Join(gdesc, ",")
+		groups := 0
+		nplans := 1
+		for _, x := range k {
+			if x > 0 {
+				groups++
 			}
-			nplans *= c17Fact[groups]
-			for coord := 0; coord < sh.n; coord++ {
-				for pi := 0; pi < nplans; pi++ {
-					p := c17Plan{local: make([]int, sh.n)}
-					y := pi
-					for n := 0; n < sh.n; n++ {
-						p.local[n] = y % c17Fact[k[n]]
-						y /= c17Fact[k[n]]
+			nplans *= c17Fact[x]
+		}
+		nplans *= c17Fact[groups]
+		for coord := 0; coord < sh.n; coord++ {
+			recs := make([]c17Rec, len(queries))
+			for qi := range recs {
+				recs[qi] = c17Rec{D: di, S: si, Q: qi, C: coord, G: grouping}
+			}
+			for pi := 0; pi < nplans; pi++ {
+				p := c17Plan{local: make([]int, sh.n)}
+				y := pi
+				for n := 0; n < sh.n; n++ {
+					p.local[n] = y % c17Fact[k[n]]
+					y /= c17Fact[k[n]]
+				}
+				p.group = y
+				c.Distinct(fmt.Sprintf("%s|%s|c%d|%s", d.name, grouping, coord, p))
+				for qi, q := range queries {
+					resp, err, order := cl.exec(coord, q.pql, p)
+					c.AddEval(1)
+					var res string
+					if err != nil {
+						res = "ERR " + err.Error()
+					} else if len(resp.Results) != 1 {
+						res = fmt.Sprintf("BAD-RESULT-COUNT %d", len(resp.Results))
+					} else {
+						res = c17Canon(resp.Results[0], q.topN)
 					}
-					p.group = y
-					c.Distinct(fmt.Sprintf("%s|%s|c%d|%s", d.name, grouping, coord, p))
-					for qi, q := range queries {
-						resp, err, order := cl.exec(coord, q.pql, p)
-						c.AddEval(1)
-						var res string
-						if err != nil {
-							res = "ERR " + err.Error()
-						} else if len(resp.Results) != 1 {
-							res = fmt.Sprintf("BAD-RESULT-COUNT %d", len(resp.Results))
-						} else {
-							res = c17Canon(resp.Results[0], q.topN)
+					found := false
+					for ri := range recs[qi].R {
+						if recs[qi].R[ri].Res == res {
+							recs[qi].R[ri].N++
+							found = true
 						}
+					}
+					if !found {
 						c.Outcome(q.pql + "=>" + res)
-						obs[qi] = append(obs[qi], c17Obs{sh, coord, p.String(), order, res, grouping})
+						recs[qi].R = append(recs[qi].R, c17RecRes{Res: res, Plan: p.String(), Order: order, N: 1})
 					}
 				}
 			}
-			c.AddStates(atomic.LoadInt64(&cl.states))
-			c.AddTransitions(atomic.LoadInt64(&cl.transitions))
-		})
-	}
-	for qi, q := range queries {
-		c17Judge(c, d, q, obs[qi])
-	}
+			for _, r := range recs {
+				b, _ := json.Marshal(r)
+				emit(b)
+			}
+		}
+		c.AddStates(atomic.LoadInt64(&cl.states))
+		c.AddTransitions(atomic.LoadInt64(&cl.transitions))
+	})
 }
 
 // c17Judge compares all observations of one (dataset, query): they must all be equal, and equal to the model
@@ -852,7 +894,7 @@ func c17Judge(c *vx.Check, d *c17Data, q c17Query, obs []c17Obs) {
 			continue
 		}
 		if f.result != o.result {
-			c.Violate(fmt.Sprintf("%s varies-with=arrival-order differs=%s", q.sig, c17Component(f.result, o.result)), cs(f, o), o.result, f.result)
+			c.Violate(fmt.Sprintf("%s varies-with=arrival-order differs=%s", q.sig, c17Component(f.result, o.result)), cs(f, o), "first: "+f.result+" / second: "+o.result, "equal results")
 			return
 		}
 	}
@@ -865,14 +907,14 @@ func c17Judge(c *vx.Check, d *c17Data, q c17Query, obs []c17Obs) {
 			continue
 		}
 		if f.result != o.result {
-			c.Violate(fmt.Sprintf("%s varies-with=coordinator differs=%s", q.sig, c17Component(f.result, o.result)), cs(f, o), o.result, f.result)
+			c.Violate(fmt.Sprintf("%s varies-with=coordinator differs=%s", q.sig, c17Component(f.result, o.result)), cs(f, o), "first: "+f.result+" / second: "+o.result, "equal results")
 			return
 		}
 	}
 	// 3. placement (cluster size / replicas / hasher)
 	for _, o := range obs {
 		if o.result != obs[0].result {
-			c.Violate(fmt.Sprintf("%s varies-with=placement differs=%s", q.sig, c17Component(obs[0].result, o.result)), cs(obs[0], o), o.result, obs[0].result)
+			c.Violate(fmt.Sprintf("%s varies-with=placement differs=%s", q.sig, c17Component(obs[0].result, o.result)), cs(obs[0], o), "first: "+obs[0].result+" / second: "+o.result, "equal results")
 			return
 		}
 	}
@@ -906,7 +948,7 @@ func c17Datasets(thorough bool) []*c17Data {
 func TestVerif_C17(t *testing.T) {
 	c := vx.NewCheck("C17", "model_checking",
 		"one evaluation = one query executed on one in-process cluster under one fully controlled arrival order (or one reduce-function application of the algebra part); states = quiescent points at which the harness chose the next result to release, transitions = results released; distinct = distinct (dataset, shard grouping, coordinator, arrival plan)")
-	c17Algebra(c)
+	c.ProcFor(c.NextRunLabel(), len(c17AlgebraParts), nil, func(_ []byte, i int, _ func([]byte)) { c17AlgebraParts[i](c) }, nil)
 	c.Extra("algebra_evaluations", c.Evaluations)
 	shapes := c17Shapes()
 	data := c17Datasets(c.Thorough())
@@ -918,15 +960,42 @@ func TestVerif_C17(t *testing.T) {
 	c.Bound("datasets", len(data))
 	c.Bound("shards", 4)
 	c.Bound("orders", "every permutation of local shard results on every node x every permutation of node groups at the coordinator; every coordinator")
-	vx.ParallelFor(len(data), func(i int) {
-		if c.Expired() {
-			return
+	// observations[dataset][query] = distinct results per (shape, coordinator), each with a witness
+	obs := make([][][]c17Obs, len(data))
+	for i := range obs {
+		obs[i] = make([][]c17Obs, 64)
+	}
+	unitsDone := map[[2]int]bool{}
+	c.ProcFor(c.NextRunLabel(), len(data)*len(shapes), nil, func(_ []byte, i int, emit func([]byte)) {
+		di, si := i/len(shapes), i%len(shapes)
+		c17RunUnit(t, c, di, si, data[di], shapes[si], emit)
+		if i%37 == 0 {
+			c.Sample(fmt.Sprintf("dataset %s on %s", data[di].name, shapes[si]))
 		}
-		c17RunDataset(t, c, data[i], shapes)
-		if i%5 == 0 {
-			c.Sample("dataset " + data[i].name)
+	}, func(rec []byte) {
+		var r c17Rec
+		if err := json.Unmarshal(rec, &r); err != nil {
+			panic(err)
+		}
+		unitsDone[[2]int{r.D, r.S}] = true
+		for _, x := range r.R {
+			obs[r.D][r.Q] = append(obs[r.D][r.Q], c17Obs{shape: shapes[r.S], coord: r.C, plan: x.Plan, order: x.Order, result: x.Res, groupng: r.G})
 		}
 	})
+	c.Extra("units_completed", fmt.Sprintf("%d of %d (dataset x cluster shape)", len(unitsDone), len(data)*len(shapes)))
+	for di, d := range data {
+		for qi, q := range c17Queries(d) {
+			o := obs[di][qi]
+			// deterministic order: by shape index, coordinator (stable for equal keys keeps plan order)
+			sort.SliceStable(o, func(a, b int) bool {
+				if o[a].shape != o[b].shape {
+					return c17ShapeLess(o[a].shape, o[b].shape)
+				}
+				return o[a].coord < o[b].coord
+			})
+			c17Judge(c, d, q, o)
+		}
+	}
 	c.AddValidated(c.Evaluations)
 	c.Assume("PQL text is parsed once per distinct string and the AST deep-copied per execution; everything after parsing is API.Query verbatim (set C17_NO_PARSE_CACHE=1 to go through API.Query itself)")
 	c.Assume("remote results are handed over in-process (copied, not protobuf-encoded); keys/translation not exercised")
@@ -934,4 +1003,14 @@ func TestVerif_C17(t *testing.T) {
 	if c.Finish() != 0 {
 		t.Fail()
 	}
+}
+
+func c17ShapeLess(a, b c17Shape) bool {
+	if a.n != b.n {
+		return a.n < b.n
+	}
+	if a.replicas != b.replicas {
+		return a.replicas < b.replicas
+	}
+	return a.hasher < b.hasher
 }
